@@ -2,6 +2,7 @@ package harness
 
 import (
 	"fmt"
+	"github.com/apache/yunikorn-core/pkg/common/configs"
 	"sort"
 	"strings"
 
@@ -40,6 +41,8 @@ type Profile struct {
 	Reloads          bool     // Reload ops use mutated configurations
 	UserPool         []string // users to draw applications' owners from (default: all)
 	BoundReqNodeProb int      // percent of RM reported allocations that are daemon set pods (require their node)
+	// ConfFn, when set, produces the initial configuration instead of GenConf(Conf)
+	ConfFn func(t *rapid.T) *configs.SchedulerConfig
 }
 
 // BaseWeights has every op enabled.
@@ -780,6 +783,35 @@ func FillNodes(t *rapid.T, w *World, p *Profile) {
 	if len(apps) == 0 {
 		return
 	}
+	// most of the time one leaf with a guaranteed share stays empty while the nodes are filled: its applications are the
+	// ones that starve below their share afterwards
+	fillApps := apps
+	askerLeaf := ""
+	if pct(t, "fill-keep-one-leaf-empty", 70) {
+		var cand []string
+		for _, id := range apps {
+			if a := w.Last.Apps[id]; a != nil {
+				if q := w.Last.Queues[a.Queue]; q != nil && q.GuarSet && q.Guaranteed["memory"] > 0 && q.Guaranteed["vcore"] > 0 {
+					cand = append(cand, a.Queue)
+				}
+			}
+		}
+		sort.Strings(cand)
+		if len(cand) > 0 {
+			askerLeaf = pick(t, "fill-asker-leaf", cand)
+			var rest []string
+			for _, id := range apps {
+				if a := w.Last.Apps[id]; a != nil && a.Queue != askerLeaf {
+					rest = append(rest, id)
+				}
+			}
+			if len(rest) > 0 {
+				fillApps = rest
+			} else {
+				askerLeaf = ""
+			}
+		}
+	}
 	for _, node := range w.Shim.LiveNodes() {
 		for i := 0; i < 8 && !w.Dead && len(w.Vios) == 0; i++ {
 			ns := w.Last.Nodes[node]
@@ -787,7 +819,7 @@ func FillNodes(t *rapid.T, w *World, p *Profile) {
 				break
 			}
 			sz := rapid.Int64Range(2, 4).Draw(t, "fill-size")
-			op := Op{Kind: OpReportBound, App: pick(t, "fill-app", apps), Key: w.Shim.NextID("ask"), Node: node, AllowSelf: true,
+			op := Op{Kind: OpReportBound, App: pick(t, "fill-app", fillApps), Key: w.Shim.NextID("ask"), Node: node, AllowSelf: true,
 				Res: Res{"memory": min(sz, ns.Available["memory"], ns.Available["vcore"]), "vcore": min(sz, ns.Available["memory"], ns.Available["vcore"])}, Prio: int32(rapid.IntRange(-1, 3).Draw(t, "fill-prio")),
 				Originator: pct(t, "fill-originator", 10), AgeSec: 3600}
 			if pct(t, "fill-daemonset", 10) {
@@ -796,9 +828,50 @@ func FillNodes(t *rapid.T, w *World, p *Profile) {
 			w.Step(op)
 		}
 	}
-	for i := rapid.IntRange(1, 3).Draw(t, "fill-starving"); i > 0 && !w.Dead && len(w.Vios) == 0; i-- {
-		op := Op{Kind: OpAddAsk, App: pick(t, "starving-app", apps), Key: w.Shim.NextID("ask"), AllowSelf: true, AllowOther: true, AgeSec: 3600,
+	// the applications whose queue path holds a guaranteed share that is not used up: the ones queue preemption works for
+	var under []string
+	room := map[string]int64{} // what is left of the smallest guaranteed share on the path of the application
+	for _, id := range apps {
+		a := w.Last.Apps[id]
+		if a == nil {
+			continue
+		}
+		left := int64(-1)
+		for _, qp := range PathPrefixes(a.Queue) {
+			if q := w.Last.Queues[qp]; q != nil && q.GuarSet {
+				for k, g := range q.Guaranteed {
+					if k == "memory" || k == "vcore" {
+						if r := g - q.Allocated[k] - q.Pending[k]; left < 0 || r < left {
+							left = r
+						}
+					}
+				}
+			}
+		}
+		if left > 0 && (askerLeaf == "" || a.Queue == askerLeaf) {
+			under = append(under, id)
+			room[id] = left
+		}
+	}
+	for i := rapid.IntRange(1, 4).Draw(t, "fill-starving"); i > 0 && !w.Dead && len(w.Vios) == 0; i-- {
+		app := pick(t, "starving-app", apps)
+		if len(under) > 0 && pct(t, "starving-under-guarantee", 85) {
+			app = pick(t, "starving-app-under", under)
+		}
+		op := Op{Kind: OpAddAsk, App: app, Key: w.Shim.NextID("ask"), AllowSelf: true, AllowOther: true, AgeSec: 3600,
 			Res: Res{"memory": rapid.Int64Range(1, 4).Draw(t, "starving-mem"), "vcore": rapid.Int64Range(1, 4).Draw(t, "starving-cpu")}, Prio: int32(rapid.IntRange(0, 3).Draw(t, "starving-prio"))}
+		if pct(t, "starving-top-prio", 60) {
+			op.Prio = 3
+		}
+		if r := room[app]; r > 0 {
+			// an ask that still fits in the guaranteed share: the precondition of queue preemption
+			for k, v := range op.Res {
+				if v > r {
+					op.Res[k] = r
+				}
+			}
+			room[app] -= op.Res["memory"]
+		}
 		if lineRes {
 			op.Res["vcore"] = op.Res["memory"]
 		}
